@@ -698,13 +698,15 @@ def r5(c, rid="C07.R5"):
 
 
 # ------------------------------------------------------------------ R6
-def r6(c):
+def r6(c, rid="C07.R6"):
     """the words of a rule end where its %parameters begin: both are decided in syntax._parse_raw_rule, once by a regex (which parameters), once by a cut (which words)"""
     repo = c.repo
-    c.rule("C07.R6", "syntax._parse_raw_rule: the parameters are recognised by the rule language's parameter pattern (blank, `%`, a name, an optional `=value` without blanks; "
+    c.rule(rid, "syntax._parse_raw_rule: the parameters are recognised by the rule language's parameter pattern (blank, `%`, a name, an optional `=value` without blanks; "
                      "compared as regex syntax trees with the specification in sa/dsl.py) and the row text is cut at a delimiter at least as wide as that pattern's lead-in "
                      "(the literal `%`, or a regex beginning like the parameter pattern): a narrower delimiter (one particular blank before `%`) leaves `%name` inside the row of "
-                     "a rule whose parameters are separated by a tab or a line continuation")
+                     "a rule whose parameters are separated by a tab or a line continuation; and the cut happens only "
+                     "where a parameter was recognised (under the truth of the recognised parameters or of the match that found them): a `%` that introduces no parameter "
+                     "(`neighbor fe80::1%Et1 ~`) belongs to the row")
     m = repo.module(SYNTAX)
     fn = repo.func(SYNTAX, "_parse_raw_rule")
     c.count("functions")
@@ -714,7 +716,7 @@ def r6(c):
     if len(fa) != 1:
         raise AnchorError("_parse_raw_rule: parameter pattern not found")
     pat = const(pv.resolve_alias(fa[0].args[0]))
-    c.check("C07.R6", flat(pat) == flat(dsl.PARAM_RE.pattern), repo.loc(m, fa[0]), "_parse_raw_rule/param-pattern",
+    c.check(rid, flat(pat) == flat(dsl.PARAM_RE.pattern), repo.loc(m, fa[0]), "_parse_raw_rule/param-pattern",
             f"parameter pattern {pat!r} differs from the rule language's {dsl.PARAM_RE.pattern!r}", key_text="param-pattern")
     lead = flat(pat)[:2]
     # the cut: stores into the raw-rule variable whose value slices / partitions / splits it
@@ -740,8 +742,33 @@ def r6(c):
             ok = d == "%"
         else:
             ok = flat(d)[:2] == lead or flat(d) == flat("%")
-        c.check("C07.R6", ok, repo.loc(m, node), "_parse_raw_rule/row-cut", f"the row is cut at {d!r} ({kind}) while parameters are recognised after any blank (`\\s%`): a parameter written after a tab or a "
+        c.check(rid, ok, repo.loc(m, node), "_parse_raw_rule/row-cut", f"the row is cut at {d!r} ({kind}) while parameters are recognised after any blank (`\\s%`): a parameter written after a tab or a "
                 "continuation line is parsed as a parameter AND stays in the row text, so the rule's regexp demands the literal text `%name` and matches nothing", key_text="row-cut")
+    # the cut is applied only where a parameter was recognised
+    gm = GuardMap(fn)
+    found = set()
+    for n in walk_no_nested(fn):
+        if isinstance(n, ast.Assign) and isinstance(n.targets[0], ast.Name):
+            v = n.value
+            if any(isinstance(x, ast.Call) and call_name(x) in ("re.findall", "re.finditer", "re.search", "re.match", "re.split") for x in ast.walk(v)):
+                found.add(n.targets[0].id)
+        if isinstance(n, ast.For) and any(isinstance(x, ast.Call) and call_name(x) in ("re.findall", "re.finditer") for x in ast.walk(n.iter)):
+            # the loop form of the same table: names filled from the matches
+            for x in ast.walk(n):
+                if isinstance(x, ast.Assign) and isinstance(x.targets[0], ast.Subscript) and isinstance(x.targets[0].value, ast.Name):
+                    found.add(x.targets[0].value.id)
+                if isinstance(x, ast.Call) and isinstance(x.func, ast.Attribute) and x.func.attr in ("append", "add", "update", "setdefault") and isinstance(x.func.value, ast.Name):
+                    found.add(x.func.value.id)
+    for n in walk_no_nested(fn):
+        if isinstance(n, ast.Assign) and norm(n.targets[0]) == raw and any(isinstance(x, ast.Slice) for x in ast.walk(n.value)):
+            conds = gm.of(n)
+            guarded = any(pol and any(isinstance(x, ast.Name) and x.id in found for x in ast.walk(t)) for t, pol in conds)
+            by_regex = any(isinstance(x, ast.Call) and call_name(x) in ("re.search", "re.match", "re.split") for x in ast.walk(n.value)) or any(
+                isinstance(x, ast.Name) and x.id in found and isinstance(pv.resolve_alias(x), ast.Call) and call_name(pv.resolve_alias(x)) in ("re.search", "re.match") for x in ast.walk(n.value))
+            c.check(rid, guarded or by_regex, repo.loc(m, n), "_parse_raw_rule/cut-only-with-params", f"`{norm(n)}` cuts the row at the first `%` although no parameter was recognised there "
+                    "(the cut is not under the truth of the recognised parameters): a row with a literal `%` (link-local `fe80::1%Et1`, `%` in a description) loses its tail, "
+                    "the rule then covers other lines than the one written", key_text="cut-unguarded")
+
 
 
 # ------------------------------------------------------------------ R7
